@@ -208,18 +208,16 @@ impl Iterator for StateTransitionIter {
     type Item = StateTransition;
 
     fn next(&mut self) -> Option<StateTransition> {
-        let cur_b = self.nxt_b;
-        let cur_a = self.nxt_a;
-        if self.nxt_b < self.max {
-            self.nxt_b += 1;
-            Some(StateTransition::new(State(cur_a), State(cur_b)))
-        } else if self.nxt_a < self.max {
+        if self.nxt_a >= self.max {
+            return None;
+        }
+        let cur = StateTransition::new(State(self.nxt_a), State(self.nxt_b));
+        self.nxt_b += 1;
+        if self.nxt_b == self.max {
             self.nxt_b = 0;
             self.nxt_a += 1;
-            Some(StateTransition::new(State(cur_a), State(cur_b)))
-        } else {
-            None
         }
+        Some(cur)
     }
 }
 
